@@ -184,6 +184,7 @@ type c18Judge struct {
 	vlines   []string // model validator lines
 	vimpl    []string // gojsonschema's verdicts
 	vcase    []string
+	alines, aimpl, acase []string // adapter choice: model line, observed protocol, case
 }
 
 func (j *c18Judge) fail(what, cas, impl string) {
@@ -220,6 +221,20 @@ func (j *c18Judge) body(kind string, body string, cas string) {
 	}
 }
 
+// adapter: the answers this process has had to its upload batches, up to the one that offered this
+// object, go to the model (ApiReq.adapterAfter); the protocol the request speaks is the observation
+func (j *c18Judge) adapter(rq capturedReq, spoke, cas string) {
+	hist, ok := rq.Header["~answers"]
+	if !ok {
+		return
+	}
+	j.mu.Lock()
+	j.alines = append(j.alines, "C18 adapter "+rq.Header["~avail"]+" "+hist)
+	j.aimpl = append(j.aimpl, spoke)
+	j.acase = append(j.acase, cas+" | "+rq.Method+" "+rq.Path)
+	j.mu.Unlock()
+}
+
 func (j *c18Judge) apiHeaders(rq capturedReq, cas string) {
 	if a := rq.Header["Accept"]; a != lfsMedia {
 		j.fail("an API request does not carry `Accept: "+lfsMedia+"`", cas, rq.Method+" "+rq.Path+" Accept="+a)
@@ -234,13 +249,24 @@ func (j *c18Judge) apiHeaders(rq capturedReq, cas string) {
 
 // flush: ask the model's validator about every body and compare with gojsonschema
 func (j *c18Judge) flush() {
-	if len(j.vlines) == 0 {
+	if len(j.vlines) == 0 && len(j.alines) == 0 {
 		return
 	}
 	ans, err := j.c.Or.Ask(j.vlines)
 	if err != nil {
 		j.c.R.Add(Finding{Kind: "diff", What: "oracle process failed: " + err.Error(), Broken: "corr.C18.validator"})
 		return
+	}
+	if len(j.alines) > 0 {
+		if a2, err := j.c.Or.Ask(j.alines); err != nil {
+			j.c.R.Add(Finding{Kind: "diff", What: "oracle process failed: " + err.Error(), Broken: "corr.C18.adapter"})
+		} else {
+			for i := range j.alines {
+				if a2[i] != j.aimpl[i] {
+					j.c.R.Add(Finding{Kind: "diff", What: "which transfer adapter carries an upload: model and implementation disagree", Case: clip(j.acase[i], 1500), Impl: j.aimpl[i], Model: a2[i] + " <= " + j.alines[i], Broken: "corr.C18.adapter"})
+				}
+			}
+		}
 	}
 	for i := range j.vlines {
 		if ans[i] != j.vimpl[i] {
@@ -674,8 +700,27 @@ func c18JudgeServer(j *c18Judge, srv *lfsServer, from int, asked map[string]int6
 					seen[o.Oid] = true
 				}
 			}
+		case "storage-tus":
+			oid := strings.TrimPrefix(rq.Path, "/storage/")
+			if rq.Header["~offered-as"] != "tus" {
+				j.fail("a transfer request uses another method than the basic transfer API prescribes", cas, fmt.Sprintf("%s %s (Tus-Resumable=%q) although the batch response offering this upload named transfer=%q", rq.Method, rq.Path, rq.Header["~tus-resumable"], rq.Header["~offered-as"]))
+			}
+			if got, want := rq.Header["X-Verif-Action"], "upload-"+oid[:min(8, len(oid))]; got != want {
+				j.fail("a transfer request does not carry the header the batch response's action supplied (action not used as offered)", cas, fmt.Sprintf("%s %s: X-Verif-Action=%q want %q", rq.Method, rq.Path, got, want))
+			}
+			if _, ok := asked[oid]; !ok {
+				j.fail("a transfer request is for an object the caller did not ask about", cas, oid)
+			}
+			j.c.R.Count("action-use.storage-tus-" + strings.ToLower(rq.Method))
+			j.adapter(rq, "tus", cas)
 		case "storage-put", "storage-get":
 			oid := strings.TrimPrefix(rq.Path, "/storage/")
+			if rq.Kind == "storage-put" && rq.Header["~offered-as"] == "tus" {
+				j.fail("an upload offered as a tus transfer was sent as a basic PUT", cas, rq.Path)
+			}
+			if rq.Kind == "storage-put" {
+				j.adapter(rq, "basic", cas)
+			}
 			want := map[string]string{"storage-put": "upload-", "storage-get": "download-"}[rq.Kind] + oid[:min(8, len(oid))]
 			if got := rq.Header["X-Verif-Action"]; got != want {
 				j.fail("a transfer request does not carry the header the batch response's action supplied (action not used as offered)", cas, fmt.Sprintf("%s %s: X-Verif-Action=%q want %q", rq.Method, rq.Path, got, want))
@@ -801,7 +846,18 @@ func c18Scenario(c *Ctx, j *c18Judge, idx int, r *Rng) {
 		return
 	}
 	w.git("remote", "add", "origin", remote)
-	w.git("config", "lfs.batchsize", fmt.Sprint(Pick(r, []int{1, 2, 100})))
+	w.git("config", "lfs.transfer.batchsize", fmt.Sprint(Pick(r, []int{1, 2, 100})))
+	if r.Chance(35) {
+		// a server that speaks tus for some batches of a push and leaves `transfer` out (= basic) in others
+		w.git("config", "lfs.tustransfers", "true")
+		if r.Chance(70) {
+			w.git("config", "lfs.transfer.batchsize", "1") // every object of a push in a batch of its own: one queue, several answers
+		}
+		srv.transferPlan = []string{Pick(r, []string{"tus", "tus", "", "basic"})}
+		for k := 0; k < 1+r.Intn(3); k++ {
+			srv.transferPlan = append(srv.transferPlan, Pick(r, []string{"tus", "", "", "basic"}))
+		}
+	}
 	w.git("config", "lfs."+srv.srv.URL+"/info/lfs.locksverify", "true")
 	w.git("config", "lfs.locksverify", "true")
 	branch := Pick(r, []string{"master", "feature/x", "q'uote", "ünï", "a&b", "with#hash"})
@@ -810,7 +866,7 @@ func c18Scenario(c *Ctx, j *c18Judge, idx int, r *Rng) {
 	if branch != "master" {
 		w.git("checkout", "-q", "-b", branch)
 	}
-	log("branch %s pagesize %d", branch, srv.pageSize)
+	log("branch %s pagesize %d transfers %q", branch, srv.pageSize, srv.transferPlan)
 	w.write(".gitattributes", []byte("*.bin filter=lfs diff=lfs merge=lfs -text lockable\n"))
 	asked := map[string]int64{}
 	names := []string{"a.bin", "dir/b c.bin", "q\"uote.bin", "ünï.bin", "back\\slash.bin", "<x>&y.bin", "plain.bin"}
@@ -835,6 +891,9 @@ func c18Scenario(c *Ctx, j *c18Judge, idx int, r *Rng) {
 	nops := 3 + r.Intn(6)
 	locked := map[string]bool{}
 	for op := 0; op < nops; op++ {
+		srv.mu.Lock()
+		srv.answerLog = nil // one git-lfs process per operation that uploads: its queue starts without an adapter
+		srv.mu.Unlock()
 		switch r.Intn(9) {
 		case 0, 1:
 			out, code := w.git("push", "origin", branch)
